@@ -17,8 +17,9 @@ import (
 // compiled once.  Each run instantiates the shim anew (fresh descriptor table,
 // fresh mounts).
 type engineRT struct {
-	rt   wazero.Runtime
-	shim wazero.CompiledModule
+	rt    wazero.Runtime
+	shim  wazero.CompiledModule
+	named wazero.CompiledModule // the same shim carrying the module name "named-shim" in its name section
 }
 
 var (
@@ -47,7 +48,11 @@ func RuntimeFor(engine string) *engineRT {
 	if err != nil {
 		panic(fmt.Sprintf("harness: compile shim: %v", err))
 	}
-	e := &engineRT{rt: rt, shim: cm}
+	cn, err := rt.CompileModule(ctx, wasiguest.BinaryNamed("named-shim"))
+	if err != nil {
+		panic(fmt.Sprintf("harness: compile named shim: %v", err))
+	}
+	e := &engineRT{rt: rt, shim: cm, named: cn}
 	rtMap[engine] = e
 	return e
 }
@@ -65,6 +70,11 @@ func (e *engineRT) NewGuest(mc wazero.ModuleConfig) (*wasiguest.Guest, error) {
 // (the module name is left as configured).
 func (e *engineRT) InstantiateRaw(ctx context.Context, mc wazero.ModuleConfig) (api.Module, error) {
 	return e.rt.InstantiateModule(ctx, e.shim, mc)
+}
+
+// InstantiateRawNamed is InstantiateRaw with the binary that carries a module name.
+func (e *engineRT) InstantiateRawNamed(ctx context.Context, mc wazero.ModuleConfig) (api.Module, error) {
+	return e.rt.InstantiateModule(ctx, e.named, mc)
 }
 
 func scratchBase() string {
